@@ -316,6 +316,24 @@ fn c01_arm_replay_resets_everything() {
     assert!(ob.used == 7);
 }
 
+// @harness props=C07,C18 tier=quick layer=L2
+// @harness funcs="Outbound::has_retained, has_pending_release, retained_len, pending_release_len, is_quiescent"
+// @harness sym="queried id (u16), send state of all 6 entries" bounds="2 control + 2 release + 2 retained entries"
+#[kani::proof]
+#[kani::unwind(8)]
+fn c07_membership_queries_exact() {
+    // The in-flight queries are used as observers by the handle_packet lemmas and decide both
+    // identifier allocation (C07) and handle status (C18): they must be exact list membership,
+    // whatever the send state of an entry.
+    let mut tx: [u8; 16] = kani::any();
+    let mut ob = shape_2_2_2(&mut tx);
+    randomize_states(&mut ob);
+    let id: u16 = kani::any();
+    assert!(ob.has_retained(id) == (id == 41 || id == 42), "C07/C18: has_retained is not exact membership of the retained list");
+    assert!(ob.has_pending_release(id) == (id == 31 || id == 32), "C07/C18: has_pending_release is not exact membership of the list of exchanges awaiting PUBCOMP (whatever the PUBREL's send state)");
+    assert!(ob.retained_len() == 2 && ob.pending_release_len() == 2 && ob.pending_control_len() == 2 && !ob.is_quiescent());
+}
+
 // @harness props=C01,C12 tier=quick layer=L2
 // @harness funcs="Outbound::arm_replay (empty), Outbound::clear"
 // @harness sym="arena bytes" bounds="empty lists"
@@ -375,7 +393,7 @@ fn compact_body(l: [usize; 3], which: usize) {
     assert!(ob.scratch_len() == 16 - cursor, "C17: freed bytes are available again");
 }
 
-// @harness props=C17,C02 tier=quick layer=L2
+// @harness props=C17,C02,C01 tier=quick layer=L2
 // @harness funcs="Outbound::ack_packet, compact, heapless::Vec::remove, copy_within"
 // @harness sym="16 arena bytes" bounds="3 retained packets of lengths 2,3,4; first one acknowledged"
 #[kani::proof]
